@@ -2,13 +2,13 @@ HOOK_COMMITS = ['2b595be', 'f7394ca']
 NOT_APPLICABLE = {}
 META = {
  "C19": {
-  "text": "Runtime monitoring with a reference-model oracle: every owner::retrieve_txs answer over generated logs/queries is compared online with a filter written from the RetrieveTxQueryArgs documentation (membership, account, order, limit/truncation, look-ups). Exhaustive over single fields and field pairs for one log per shard, sampled beyond. This is exploration: it shows the property on the >10^5 (log, query) pairs executed, not for all inputs.",
+  "text": "Runtime monitoring with a reference-model oracle: every owner::retrieve_txs answer over generated logs/queries is compared online with a filter written from the RetrieveTxQueryArgs documentation (membership, account, order, limit/truncation, look-ups). Exhaustive over single fields and field pairs for one log per shard, sampled beyond. This is exploration: it shows the property on the >10^5 (log, query) pairs executed, not for all inputs. Generated logs carry stored transactions; get_stored_tx by log id must return the active account's.",
   "design_ref": "DESIGN.md section 5 C19",
   "note": "Trusts the harness's reading of the field documentation (don't-care sets listed in the evidence assumptions) and LMDB round-tripping of the synthetic entries.",
   "technique": "runtime monitoring: reference-filter oracle over real retrieve_txs executions on generated logs/queries",
  },
  "C01": {
-  "text": "Runtime monitoring of the real selection and initiation code: an invariant oracle (independent spendability predicate, exact u128 conservation, minimum fee, unique change paths, no panic, bounded steps, nothing persisted on refusal) evaluated on every execution of an exhaustive small scope plus several 10^5 sampled wallets/parameter draws (hook H1, in-memory backend) and on API-level sends, estimates, late-locked sends and invoice payments against a real LMDB wallet and chain. Source accounts other than the active one (src_acct_name) and, for late-locked sends, an intervening send that reserves coins between initiation and finalization are part of the API-level workload; a refused late-locked finalization of an honest reply must leave nothing newly reserved.",
+  "text": "Runtime monitoring of the real selection and initiation code: an invariant oracle (independent spendability predicate, exact u128 conservation, minimum fee, unique change paths, no panic, bounded steps, nothing persisted on refusal) evaluated on every execution of an exhaustive small scope plus several 10^5 sampled wallets/parameter draws (hook H1, in-memory backend) and on API-level sends, estimates, late-locked sends and invoice payments against a real LMDB wallet and chain. Source accounts other than the active one (src_acct_name) and, for late-locked sends, an intervening send that reserves coins between initiation and finalization are part of the API-level workload; a refused late-locked finalization of an honest reply must leave nothing newly reserved. Workload A includes change-output counts whose minimum fee exceeds the kernel fee field (the send must be refused, not crash); workload B judges the weight of every transaction the wallet agrees to build against the maximum and drives estimate / late-lock with such counts in a wallet that can afford the fee.",
   "design_ref": "DESIGN.md section 5 C01",
   "note": "Trusts grin_core::libtx::tx_fee as the network minimum and the harness's own spendability predicate; workload B covers tens (quick) to hundreds (thorough) of API calls, the bulk of the input space is covered at the selection-function boundary.",
   "technique": "runtime monitoring: conservation/eligibility invariant oracle over real selection executions (exhaustive small scope + sampled), API-level replay with LMDB state diff",
@@ -32,7 +32,7 @@ META = {
   "technique": "runtime monitoring: panic/allocation/CPU/state-diff monitors around real decoder executions on structure-aware hostile inputs; AddressSanitizer, valgrind memcheck and Miri passes (thorough)",
  },
  "C03": {
-  "text": "Runtime monitoring of the real wallets under generated interleaved histories (several thousand steps per quick run, tens of thousands thorough) with an exclusivity/idempotence monitor evaluated after every step. Repeats include the reserve step delivered again after the transaction was cancelled.",
+  "text": "Runtime monitoring of the real wallets under generated interleaved histories (several thousand steps per quick run, tens of thousands thorough) with an exclusivity/idempotence monitor evaluated after every step. Repeats include the reserve step delivered again after the transaction was cancelled. Repeats that name another account of the same wallet are judged too (receive into another account; an already paid self-issued invoice processed and reserved from another account), and the histories call tx_lock_outputs on late-locked sends as the command line does.",
   "design_ref": "DESIGN.md section 5 C03",
   "note": "Histories are sampled; the monitor reads wallet state through the backend iterators after each step.",
   "technique": "runtime monitoring: invariant monitor (reservation exclusivity, idempotent repeats) over generated interleaved histories on real LMDB wallets and chain",
@@ -44,13 +44,13 @@ META = {
   "technique": "runtime monitoring: chain-truth oracle evaluated at every successful refresh over generated histories",
  },
  "C15": {
-  "text": "Runtime monitoring: a path -> output map maintained over every output record ever observed in generated histories (with restarts, cancels after broadcast, node outages), plus restore-from-seed runs checking that the next derivation index lies beyond every path on chain. The histories include coinbase requests that name the key of an existing coinbase record (a never-mined candidate, or an already confirmed one).",
+  "text": "Runtime monitoring: a path -> output map maintained over every output record ever observed in generated histories (with restarts, cancels after broadcast, node outages), plus restore-from-seed runs checking that the next derivation index lies beyond every path on chain. The histories include coinbase requests that name the key of an existing coinbase record (a never-mined candidate, or an already confirmed one). Coinbase requests also name candidates that are already mined but not yet seen by the wallet (M-keypath consults the chain for the exception); restores are repeated after a first scan that a node fault interrupted right after the UTXO listing.",
   "design_ref": "DESIGN.md section 5 C15",
   "note": "Crash points are covered by the C06 runs, which feed the same monitor (see C06).",
   "technique": "runtime monitoring: key-path uniqueness monitor over generated histories and restores",
  },
  "C06": {
-  "text": "Fault enumeration by runtime injection: every persistence-call boundary of every operation of five scenarios is hit with a process kill and with two failing-write errnos (plus torn stored-tx writes), and a recovery oracle is evaluated on the reopened directory. The interposer observes the calls below the process, so writes issued by the statically linked LMDB C code are included and a new write added by a change is enumerated without a new hook. A partially written stored-transaction file answered with 'no stored transaction' counts as silent loss.",
+  "text": "Fault enumeration by runtime injection: every persistence-call boundary of every operation of five scenarios is hit with a process kill and with two failing-write errnos (plus torn stored-tx writes), and a recovery oracle is evaluated on the reopened directory. The interposer observes the calls below the process, so writes issued by the statically linked LMDB C code are included and a new write added by a change is enumerated without a new hook. A partially written stored-transaction file answered with 'no stored transaction' counts as silent loss. The scenarios include a scan that drops a pending multi-input send, interrupted at every persistence call.",
   "design_ref": "DESIGN.md section 5 C06, section 4.2",
   "note": "Trusts the interposer to see every persistence call (verified against the observed sequences recorded in the evidence) and the process-death crash model.",
   "technique": "runtime monitoring with fault injection: syscall-level crash/failing-write enumeration + recovery invariant oracle",
@@ -62,25 +62,25 @@ META = {
   "technique": "runtime monitoring: byte-search and nonce-uniqueness monitors over histories + fault-injected seed-file operations with an independent decryptor",
  },
  "C17": {
-  "text": "Runtime monitoring of the real TTL checks: a directed sweep of cutoffs around the wallet's observed height at every protocol step and role, and of refreshes around the cutoff with other pending transactions present, judged by an expiry oracle stated as implications. The acting wallet's own ttl_blocks wish for its reply is varied (it must not matter for the incoming slate's expiry); roles include a self-send inside one account, and a refresh that fails while the node is reachable is itself judged.",
+  "text": "Runtime monitoring of the real TTL checks: a directed sweep of cutoffs around the wallet's observed height at every protocol step and role, and of refreshes around the cutoff with other pending transactions present, judged by an expiry oracle stated as implications. The acting wallet's own ttl_blocks wish for its reply is varied (it must not matter for the incoming slate's expiry); roles include a self-send inside one account, and a refresh that fails while the node is reachable is itself judged. Steps also arrive while another account of the acting wallet is active than the one whose refresh observed the height; huge ttl_blocks values; refreshes in which an older TTL send is confirmed by its kernel while a later one has expired.",
   "design_ref": "DESIGN.md section 5 C17",
   "note": "Directed boundary sweep (hundreds of cases), not random histories; other pending transactions are of the same wallet and role.",
   "technique": "runtime monitoring: boundary sweep with an expiry oracle over real receive/finalize/invoice/refresh executions",
  },
  "C05": {
-  "text": "Runtime monitoring with a before/after oracle on real wallets: every pending kind at every stage is cancelled in the presence of other reservations and the complete observable state is compared with the snapshot taken just before the transaction existed. Every third case places pending entries with the same per-account log ids into the wallet's other account (the compared view covers every account); refusal cases include a transaction that is already mined but not yet seen by the wallet (with and without change output); every fourth case runs on coins that were restored by a scan.",
+  "text": "Runtime monitoring with a before/after oracle on real wallets: every pending kind at every stage is cancelled in the presence of other reservations and the complete observable state is compared with the snapshot taken just before the transaction existed. Every third case places pending entries with the same per-account log ids into the wallet's other account (the compared view covers every account); refusal cases include a transaction that is already mined but not yet seen by the wallet (with and without change output); every fourth case runs on coins that were restored by a scan. Self-sends and re-received slates are cancelled by slate id (one id standing for several entries); a cancel request naming no transaction is a refusal case.",
   "design_ref": "DESIGN.md section 5 C05",
   "note": "Directed enumeration of kinds/stages/addressing (hundreds of cases), parameters drawn per case.",
   "technique": "runtime monitoring: exact-rollback oracle (state snapshot before create vs after cancel) over enumerated pending-transaction kinds",
  },
  "C02": {
-  "text": "Runtime monitoring with a mutation campaign on the reply slate: every finalization that succeeds is judged by an independent exactness oracle (validation, recomputed inputs/change from the seed, agreed fee, stored-transaction bytes, acceptance by a real chain), every refusal by a frame condition and cancellability. Per shard also: cancel_tx followed by finalize_tx of the honest reply (with and without change output) must be refused or leave every input reserved. Attacker-level replies include one that splits the recipient's output into two balanced outputs. Thorough tier repeats the quick workload under AddressSanitizer (Rust and C code).",
+  "text": "Runtime monitoring with a mutation campaign on the reply slate: every finalization that succeeds is judged by an independent exactness oracle (validation, recomputed inputs/change from the seed, agreed fee, stored-transaction bytes, acceptance by a real chain), every refusal by a frame condition and cancellability. Per shard also: cancel_tx followed by finalize_tx of the honest reply (with and without change output) must be refused or leave every input reserved. Attacker-level replies include one that splits the recipient's output into two balanced outputs. Thorough tier repeats the quick workload under AddressSanitizer (Rust and C code). Per shard also: a late-locked send in the command line's call order (tx_lock_outputs before the reply, finalize retried once), and attacker replies whose state field is switched to Invoice2 after the recipient planted a receipt with the send's id.",
   "design_ref": "DESIGN.md section 5 C02",
   "note": "Alterations are a fixed catalogue plus attacker-level re-signed replies; the honest counterparty's outputs are taken from its real reply.",
   "technique": "runtime monitoring: 'success implies exact' oracle over finalizations of systematically altered replies, with a real chain as acceptance oracle; AddressSanitizer pass (thorough)",
  },
  "C11": {
-  "text": "Runtime monitoring: proof-carrying sends with altered replies and altered exported proofs; acceptance is judged by an independent ed25519 verification of the recipient signature over the amount fixed at initiation and the excess of the returned transaction, and by kernel presence on the real chain. Once per shard the block holding a verified proof's kernel is replaced by a longer fork (the proof must stop verifying), and a proof-carrying send is made from a named source account while another account is active.",
+  "text": "Runtime monitoring: proof-carrying sends with altered replies and altered exported proofs; acceptance is judged by an independent ed25519 verification of the recipient signature over the amount fixed at initiation and the excess of the returned transaction, and by kernel presence on the real chain. Once per shard the block holding a verified proof's kernel is replaced by a longer fork (the proof must stop verifying), and a proof-carrying send is made from a named source account while another account is active. Per four shards: proof-carrying sends in the callers' orders - outputs reserved with the recipient's reply (command line, send_args), and the sender's own slate bounced to its foreign API before it reserves - with the proof stripped or re-addressed to and signed by another key.",
   "design_ref": "DESIGN.md section 5 C11",
   "note": "Independent verification uses ed25519-dalek directly; the proof message layout (amount big-endian || excess || sender key) is taken from the property's wording and the wallet's documented format.",
   "technique": "runtime monitoring: soundness oracle over altered replies and altered exported proofs on real wallets and chain",
@@ -92,25 +92,25 @@ META = {
   "technique": "runtime monitoring: frame-condition oracle (complete LMDB dump diff) over sequences of honest and hostile foreign calls; AddressSanitizer pass (thorough)",
  },
  "C13": {
-  "text": "Runtime monitoring of the real owner listener handler with a client-side session model: every request is classified by the harness as authenticated-under-the-current-key or not, and an 'effect or data implies authenticated' oracle inspects the wallet database, files, lifecycle state and the reply; replies to authenticated requests must decrypt under the same key. Unauthenticated classes include plaintext batch arrays that hold the key-exchange call next to other calls; authenticated classes include an encrypted batch that contains a key exchange (afterwards both keys are probed: whichever is served must answer under the request's own key).",
+  "text": "Runtime monitoring of the real owner listener handler with a client-side session model: every request is classified by the harness as authenticated-under-the-current-key or not, and an 'effect or data implies authenticated' oracle inspects the wallet database, files, lifecycle state and the reply; replies to authenticated requests must decrypt under the same key. Unauthenticated classes include plaintext batch arrays that hold the key-exchange call next to other calls; authenticated classes include an encrypted batch that contains a key exchange (afterwards both keys are probed: whichever is served must answer under the request's own key). At the end of every session a request is held in flight (the harness node blocks) while another party performs the plaintext key exchange: the reply must open with the key the request was made under.",
   "design_ref": "DESIGN.md section 5 C13",
   "note": "The handler is driven in-process (no socket); AES-GCM envelopes are built by the harness with ring, independently of the wallet's EncryptedRequest type.",
   "technique": "runtime monitoring: session-model oracle ('effect implies authenticated') over generated request histories on the real handler",
  },
  "C14": {
-  "text": "Runtime monitoring of the real Owner API on a masked LMDB wallet: a token-kind sweep over every method with a raw-database frame condition, an invalid-mask requirement derived statically (key-using methods) and dynamically (methods observed to write with the right token), a masked-vs-unmasked differential run, and closed-wallet probes. The masked wallets' tokens are obtained through api::Owner::open_wallet; two wallets' tokens must differ and a previous session's token must not work after reopening.",
+  "text": "Runtime monitoring of the real Owner API on a masked LMDB wallet: a token-kind sweep over every method with a raw-database frame condition, an invalid-mask requirement derived statically (key-using methods) and dynamically (methods observed to write with the right token), a masked-vs-unmasked differential run, and closed-wallet probes. The masked wallets' tokens are obtained through api::Owner::open_wallet; two wallets' tokens must differ and a previous session's token must not work after reopening. The last round also starts the background updater with a wrong token, and with the right token followed by close/open of the wallet: afterwards a refreshing call with the right token must still refresh.",
   "design_ref": "DESIGN.md section 5 C14",
   "note": "Wrong tokens are sampled (absent, random, one bit off, another wallet's); create_mwixnet_req is not driven.",
   "technique": "runtime monitoring: token sweep with database frame condition + masked/unmasked differential execution",
  },
  "C18": {
-  "text": "Runtime monitoring on a real grin_chain::Chain that the harness reorganises block by block: after every reorganisation the recipient's records, balance figures and coin selection are judged against kernel and UTXO membership read from the chain. In every other scenario the recipient wallet has a second account whose log entries carry the same per-account ids as the payment.",
+  "text": "Runtime monitoring on a real grin_chain::Chain that the harness reorganises block by block: after every reorganisation the recipient's records, balance figures and coin selection are judged against kernel and UTXO membership read from the chain. In every other scenario the recipient wallet has a second account whose log entries carry the same per-account ids as the payment. Every other payment carries a time-to-live that has passed when it is reorganised away; every fifth scenario the recipient has reserved (and possibly released again) the received output for a payment of its own before the reorganisation (open finding).",
   "design_ref": "DESIGN.md section 5 C18",
   "note": "Fork blocks carry neutral coinbases; flip-flop depth is bounded to 0-3 blocks below the receiving block.",
   "technique": "runtime monitoring: chain-truth oracle over generated reorganisation scenarios on a real chain",
  },
  "C20": {
-  "text": "Runtime monitoring in three parts. (1) Cooperative scheduling: the cfg-guarded hook in wallet_lock! calls back before every lock acquisition of a refresh or scan; the harness runs other complete operations (reserve, finalize, cancel, receive, initiate, finalize+post+mine, node events, a caller's nested refresh) at that point and compares the outcome of every such schedule - enumerated exhaustively for one concurrent operation and for chosen (quick) or all (thorough) pairs - with the outcomes of all serial orders from the same snapshot. (2) Real threads: two updater threads (refresh / refresh-all / scan loops with short sleeps at the lock announcements), a miner and four workers driving complete flows through api::Owner/Foreign on the same two wallets, judged at quiescent points by per-flight postconditions that hold in every serial order (each flight has its own slate id), by the reservation invariants, the books and a progress/CPU deadlock watchdog. (3) Thorough only: the real-thread job under ThreadSanitizer.",
+  "text": "Runtime monitoring in three parts. (1) Cooperative scheduling: the cfg-guarded hook in wallet_lock! calls back before every lock acquisition of a refresh or scan; the harness runs other complete operations (reserve, finalize, cancel, receive, initiate, finalize+post+mine, node events, a caller's nested refresh) at that point and compares the outcome of every such schedule - enumerated exhaustively for one concurrent operation and for chosen (quick) or all (thorough) pairs - with the outcomes of all serial orders from the same snapshot. (2) Real threads: two updater threads (refresh / refresh-all / scan loops with short sleeps at the lock announcements), a miner and four workers driving complete flows through api::Owner/Foreign on the same two wallets, judged at quiescent points by per-flight postconditions that hold in every serial order (each flight has its own slate id), by the reservation invariants, the books and a progress/CPU deadlock watchdog. (3) Thorough only: the real-thread job under ThreadSanitizer. The enumerator's operation set includes a pending receipt that is cancelled / mined (CancelR, MineR), switching the active account (SwitchAcct, against refresh), and a start state one block before the TTL cut-off.",
   "design_ref": "DESIGN.md section 5 C20",
   "note": "Enumeration is exhaustive for 1 concurrent operation and for chosen (quick) or all (thorough) pairs; three concurrent operations are not enumerated. Real-thread schedules are not replayable: the witness is the operation log. ThreadSanitizer reports are judged only when one of the two racing accesses is in a grin_wallet_* crate (LMDB's lock-free reader table and the harness node's grin_store are reported by TSan and counted, not judged).",
   "technique": "runtime monitoring: hook-driven schedule enumeration with a serializability oracle; real-thread stress with per-flight postcondition, invariant and deadlock monitors; ThreadSanitizer pass (thorough)",
